@@ -2,7 +2,7 @@
    bases.  The parser model (LocParse.v) is the faithful, leaky-stack
    transliteration; it agrees with gts.AsLocation on every string of up to 4
    (thorough 5) symbols of the location alphabet. *)
-From GTS Require Import Base Arith Pars Loc LocParse BaseLemmas LocProofs.
+From GTS Require Import Base Arith Pars Loc LocParse BaseLemmas LocProofs JoinDen.
 Open Scope Z_scope.
 
 (* order(...) flattens and never changes the denoted residues or their order *)
@@ -21,10 +21,37 @@ Theorem C06_join_ranges_abut : forall vs m a b ue c d,
 Proof. exact join_two_ranges_abut. Qed.
 Print Assumptions C06_join_ranges_abut.
 
-(* PARTIAL: the general statement
-     join ls = Ok j -> k1_free ls -> dedup (den j) = dedup (flat_map den ls)
-   and the print/parse round trip for every location are decided by the
-   correspondence and the oracle; the two known findings are exhibited: *)
+(* The reductions applied when parts are joined (dropping duplicates, merging
+   abutting ranges, absorbing zero-length sites, re-joining complement pairs in
+   reverse order, flattening nested joins) never change the ordered, stranded
+   list of residues the location denotes, up to dropping adjacent duplicates
+   (deq; equivalently the same canonical form dd and the same set) — for EVERY
+   list of locations of every kind and nesting in which every range is
+   non-empty and no point coordinate equals the end coordinate of a range
+   (k1_free).  Without k1_free the statement is false of the code: K1 below. *)
+Theorem C06_join_keeps_residues : forall locs j,
+  k1_free locs -> forallb rokb locs = true -> join locs = Ok j ->
+  deq (den j) (flat_map den locs).
+Proof. exact join_den. Qed.
+Print Assumptions C06_join_keeps_residues.
+
+Theorem C06_join_keeps_residues_canonical : forall locs j,
+  k1_free locs -> forallb rokb locs = true -> join locs = Ok j ->
+  dd pos_eqb (den j) = dd pos_eqb (flat_map den locs) /\
+  (forall x, In x (den j) <-> In x (flat_map den locs)).
+Proof. exact join_den_dd. Qed.
+Print Assumptions C06_join_keeps_residues_canonical.
+
+(* the hypotheses are met by a list on which every reduction fires *)
+Example C06_join_example :
+  let locs := [Ranged 0 3 false true; Ranged 3 6 true false; Between 6; Point 8; Point 8;
+               Joined [Between 9; Ranged 9 12 false false];
+               Complemented (Ranged 20 24 true false); Complemented (Ranged 16 20 false true)] in
+  forallb rokb locs = true /\
+  join locs = Ok (Joined [Ranged 0 6 false false; Point 8; Ranged 9 12 false false;
+                          Complemented (Ranged 16 24 false false)]) /\
+  forallb (fun e => forallb (fun p => negb (e =? p)) (flat_map pts locs)) (flat_map ends locs) = true.
+Proof. vm_compute. repeat split; reflexivity. Qed.
 
 (* K1 (pinned by TestLocationReduction): a point just past a range is dropped *)
 Theorem C06_join_refuted_range_point :
